@@ -720,7 +720,8 @@ PARTIAL = [
     "POVM / measurement-process verdicts are reduced to per-element psdVerdict (povmPsd_iff, mpCp_iff), the matrix-level sandwich is applied per element",
     "basis verdicts: is_hermitian / is_orthogonal / is_normal are modelled with generated rtol and characterised (basisIs*_iff); is_0thpropI "
     "(np.allclose against complex entries with the default rtol) stays a parameter of the generated flag; the TP verdict is characterised "
-    "syntactically (tp_row_iff, tpTrace_iff), 'trace preserving as a map' is not stated",
+    "syntactically (tp_row_iff, tpTrace_iff) and at tolerance 0 as exact trace preservation on every basis element (tpTrace_zero_iff); the extension "
+    "by linearity to arbitrary operators is not stated",
     "origin objects are proved physical as scalar operator matrices (origin_state_physical, origin_povm_physical, origin_gate_tp, "
     "origin_mprocess_sum_tp) for identity-first orthonormal bases only; that the library's origin arrays denote these operators is checked on the "
     "real code; on other Hermitian bases the library's origin object is not physical (finding C01-F2)",
